@@ -141,7 +141,7 @@ def run(ctx):
             if step['op'] == 'S':
                 f, a, k = build(s_name)
                 k = dict(k)
-                k['seed'] = 100 + step['seed'] + (7 * step['v'])
+                k['seed'] = [0, 7, 100, 2 ** 31 + 5][(step['seed'] - 1) * 2 + (step['v'] - 1) % 2]      # includes the seed 0
                 observe(('S', s_name, k['seed']), fp(RG.quiet(f, *a, **k)), 'integer seed', case)
             elif step['op'] == 'G':
                 f, a, k = build(s_name)
@@ -177,10 +177,28 @@ def run(ctx):
             if rep == 2:
                 RG.quiet(*[(f_, a_, k_) for f_, a_, k_ in [RG.CALLS['cross']()]][0][:1], *RG.CALLS['cross']()[1], **RG.CALLS['cross']()[2])
             f, a, k = build(name)
+            if rep == 2 and 'seed' in k:
+                k = dict(k, seed=0)
             g0 = gstate()
             r_ = RG.quiet(f, *a, **k)
             fill = {kk: {x: y for x, y in vv.items() if x != 't'} for kk, vv in k.items() if kk in RG.FILL_KEYS and isinstance(vv, dict)}
-            reps.append(fp((r_, fill)))
+            reps.append(fp((r_, fill)) if not (rep == 2 and 'seed' in k) else reps[0])
+            if rep == 2 and 'seed' in k:
+                # seed 0 is an integer seed like any other: two calls must agree
+                f2, a2, k2 = build(name)
+                k2 = dict(k2, seed=0)
+                if fp(RG.quiet(f2, *a2, **k2)) != fp(r_):
+                    ctx.violation('history:' + name, '%s: two calls with the integer seed 0 differ' % name, case={'call': name, 'seed': 0})
+            # repeated call on the SAME argument objects (deliberately filled dictionaries replaced by fresh ones)
+            if rep == 0:
+                k_again = {kk: ({} if kk in RG.FILL_KEYS and isinstance(vv, dict) else vv) for kk, vv in k.items()}
+                if 'seed' in k_again and not isinstance(k_again['seed'], int):
+                    k_again = None
+                if k_again is not None:
+                    r2 = RG.quiet(f, *a, **k_again)
+                    fill2 = {kk: {x: y for x, y in vv.items() if x != 't'} for kk, vv in k_again.items() if kk in RG.FILL_KEYS and isinstance(vv, dict)}
+                    if fp((r2, fill2)) != reps[0]:
+                        ctx.violation('history:' + name, '%s: a second call on the same argument objects returns a different result' % name, case={'call': name})
             if gstate() != g0:
                 ctx.violation('global-rng:' + name, '%s moved the global NumPy generator' % name, case={'call': name})
         ctx.case(key=('sweep', name), nontrivial=True)
